@@ -81,6 +81,11 @@ class LegacyOnDec(p.Variable):
     mapper_method = "map_legacy_on_dec"
 
 
+class LegacyOnDecChild(LegacyOnDec):
+    """undecorated child of a legacy class: inherits init_arg_names / __getinitargs__ (three-level hierarchy)"""
+    mapper_method = "map_legacy_on_dec_child"
+
+
 class LegacyRoot(p.Expression):
     init_arg_names = ("p1", "p2")
 
@@ -112,7 +117,7 @@ class LegacyTwin(LegacyRoot):
     mapper_method = "map_legacy_twin"
 
 
-USER_CLASSES = [DecChild, DecGrand, OwnInit, PlainSub, LegacyOnDec, LegacyRoot, LegacySub, LegacyTwin]
+USER_CLASSES = [DecChild, DecGrand, OwnInit, PlainSub, LegacyOnDec, LegacyOnDecChild, LegacyRoot, LegacySub, LegacyTwin]
 
 # }}}
 
@@ -135,7 +140,7 @@ def all_classes():
 
 def field_spec(cls):
     """list of (name, kind)"""
-    if cls in (LegacyOnDec,):
+    if cls in (LegacyOnDec, LegacyOnDecChild):
         return [("name", "str"), ("tag", "str")]
     if cls in (LegacyRoot, LegacyTwin):
         return [("p1", "expr"), ("p2", "str")]
@@ -670,6 +675,23 @@ def check_conc(item, tier):
         else:
             if b in {a} or b in {a: 1}:
                 viol(f"dict:{a!r}|{b!r}", f"unequal objects found each other in set/dict: {a!r} {b!r}")
+    # reflexivity with a value that is not equal to itself (float nan) in each scalar field
+    spec = field_spec(cls)
+    for i, (nm, k) in enumerate(spec):
+        if k != "expr":
+            continue
+        args = [{"expr": p.Variable("x"), "exprs": (p.Variable("x"),), "str": "n", "optstr": None, "strs": ("u",), "int": 0,
+                 "operator": "<", "mapping": immutabledict({"k": 1}), "callable": None}[kk] for _, kk in spec]
+        args[i] = float("nan")
+        try:
+            a = cls(*args)
+        except Exception:  # noqa: BLE001
+            continue
+        res.path_assertions += 1
+        r = _safe(lambda: (bool(a == a), bool(a != a), a in {a}, {a: 1}.get(a), hash(a) == hash(a)))
+        if r != ("val", (True, False, True, 1, True)):
+            viol(f"reflexive-nan:{nm}", f"{cls.__name__} with float nan in field {nm!r}: (a == a, a != a, a in {{a}}, {{a: 1}}.get(a), "
+                                        f"hash stable) = {r}, expected (True, False, True, 1, True)")
     # triples: transitivity
     for a, b, c in itertools.product(insts[:8], repeat=3):
         res.path_assertions += 1
@@ -751,7 +773,7 @@ SIBLINGS = [["Quotient", "FloorDiv", "Remainder", "QuotientBase"], ["LeftShift",
 def check_siblings():
     res = ItemResult(item="siblings", sample={"family": "different classes, equal fields"})
     groups = [[getattr(p, n) for n in g] for g in SIBLINGS]
-    groups += [[p.Variable, DecChild, PlainSub], [DecChild, LegacyOnDec], [LegacyRoot, LegacyTwin], [DecChild, DecGrand]]
+    groups += [[p.Variable, DecChild, PlainSub], [DecChild, LegacyOnDec], [LegacyOnDec, LegacyOnDecChild], [LegacyRoot, LegacyTwin], [DecChild, DecGrand]]
     for g in groups:
         for c1, c2 in itertools.permutations(g, 2):
             s1, s2 = field_spec(c1), field_spec(c2)
@@ -775,7 +797,7 @@ def check_userdefs():
     """user classes: copies / pickles keep all init args; decorated classes get eq/hash of their own fields"""
     res = ItemResult(item="userdefs", sample={"family": "user class hierarchies"})
     x = p.Variable("x")
-    objs = [DecChild("n", "t"), DecGrand("n", "t", 3), OwnInit(x, "t"), OwnInit(x + 1), PlainSub("n"), LegacyOnDec("n", "t"), LegacyRoot(x, "s"),
+    objs = [DecChild("n", "t"), DecGrand("n", "t", 3), OwnInit(x, "t"), OwnInit(x + 1), PlainSub("n"), LegacyOnDec("n", "t"), LegacyOnDecChild("n", "t"), LegacyRoot(x, "s"),
             LegacySub(x, "s", x + 1), LegacyTwin(x, "s")]
     for o in objs:
         for nm, fn in (("copy", copy.copy), ("deepcopy", copy.deepcopy),
